@@ -1057,6 +1057,8 @@ trait BigSub: Sized {
     fn clr(&mut self);
     fn empty(&self) -> bool;
     fn snap(&self) -> i_tree::verif::ArenaSnap<(u32, u32)>;
+    fn filby(&self, k: u32) -> u32;
+    fn delh(&mut self, h: u32);
     /// neighbour steps (ordered set only): handle of the next / previous entry in key order
     fn after(&self, _h: u32) -> Option<u32> {
         None
@@ -1081,6 +1083,12 @@ impl BigSub for i_tree::map::tree::MapTree<u32, u32> {
     }
     fn fil(&self, k: u32) -> u32 {
         i_tree::map::sort::MapCollection::first_index_less(self, k)
+    }
+    fn filby(&self, k: u32) -> u32 {
+        i_tree::map::sort::MapCollection::first_index_less_by(self, |x: u32| x.cmp(&k))
+    }
+    fn delh(&mut self, h: u32) {
+        i_tree::map::sort::MapCollection::delete_by_index(self, h)
     }
     fn at(&self, h: u32) -> u32 {
         *i_tree::map::sort::MapCollection::value_by_index(self, h)
@@ -1113,6 +1121,12 @@ impl BigSub for i_tree::set::tree::SetTree<u32, u32> {
     }
     fn fil(&self, k: u32) -> u32 {
         i_tree::set::sort::SetCollection::first_index_less(self, &k)
+    }
+    fn filby(&self, k: u32) -> u32 {
+        i_tree::set::sort::SetCollection::first_index_less_by(self, |x: &u32| x.cmp(&k))
+    }
+    fn delh(&mut self, h: u32) {
+        i_tree::set::sort::SetCollection::delete_by_index(self, h)
     }
     fn at(&self, h: u32) -> u32 {
         i_tree::set::sort::SetCollection::value_by_index(self, h).wrapping_mul(7) + 3
@@ -1175,11 +1189,22 @@ fn big_checkpoint<S: BigSub>(t: &S, model: &BTreeMap<u32, u32>, hint: usize, pea
         if h == i_tree::EMPTY_REF || t.at(h) != *v {
             return Err(("handle".into(), format!("{what}: first_index_less({k}) = {h} does not designate the entry of key {k}")));
         }
+        let h2 = t.filby(*k);
+        if h2 != h {
+            return Err(("handle".into(), format!("{what}: first_index_less_by(cmp with {k}) = {h2}, first_index_less({k}) = {h}")));
+        }
     }
     // absent keys right next to stored ones
-    for k in model.keys().step_by(37) {
-        if !model.contains_key(&(k + 1)) && t.get(k + 1).is_some() {
-            return Err(("get_value".into(), format!("{what}: get_value({}) of an absent key returned a value", k + 1)));
+    for (k, v) in model.iter().step_by(37) {
+        if !model.contains_key(&(k + 1)) {
+            if t.get(k + 1).is_some() {
+                return Err(("get_value".into(), format!("{what}: get_value({}) of an absent key returned a value", k + 1)));
+            }
+            // a probe in the gap above a stored key designates that key's entry, in both forms
+            let h = t.fil(k + 1);
+            if h == i_tree::EMPTY_REF || t.at(h) != *v || t.filby(k + 1) != h {
+                return Err(("handle".into(), format!("{what}: first_index_less({}) = {h}, first_index_less_by = {}; the entry of key {k} is the one to designate", k + 1, t.filby(k + 1))));
+            }
         }
     }
     // neighbour steps: walking from the smallest key visits every key in order and ends with EMPTY_REF, and back
@@ -1299,6 +1324,93 @@ fn big_history<S: BigSub>(hint: usize, n: u32, order: u32, keep_pct: u32, acc: &
     }
 }
 
+/// bigtree "spine": a long monotone fill of widely spaced keys, then a second monotone fill in the opposite direction
+/// into the gap right next to the root's key - the subtree beside the root gets a spine of 2*log2(n2) links, all turning
+/// the same way.  Then the root is removed through its handle (a two-children removal whose successor / predecessor
+/// sits at the bottom of that spine), 64 times over.
+fn big_spine_history<S: BigSub>(n1: u32, n2: u32, mirror: bool, acc: &mut Acc, case_no: u64) {
+    let case = vec![
+        format!("{}::new(8)", S::NAME),
+        format!("insert {n1} keys in {} order, leaving a gap of {} keys beside the key r the root will hold; insert {n2} keys {} r (not r+-1 itself) in {} order; check; 64 x (delete the root's entry through its handle); check", if mirror { "descending" } else { "ascending" }, n2 + 2, if mirror { "just below" } else { "just above" }, if mirror { "ascending" } else { "descending" }),
+        format!("--only-spine {n1},{n2},{}", mirror as u8),
+    ];
+    rt::hist_reset();
+    rt::hist_push(code(6, case_no, 1, 0, 0));
+    let mut model: BTreeMap<u32, u32> = BTreeMap::new();
+    let r = guard(|| -> Result<(), (String, String)> {
+        let mut t = S::new(8);
+        let val = |k: u32| k.wrapping_mul(7) + 3;
+        // the rank of the root after the first fill depends on the insertion order only: find it on a twin with
+        // dense keys, then leave a gap of n2 + 1 keys right beside the root's key in the real run
+        let root_key = |t: &S| {
+            let s = t.snap();
+            s.slots[s.root as usize].payload.0
+        };
+        let ir = {
+            let mut twin = S::new(8);
+            for j in 0..n1 {
+                let i = if mirror { n1 - 1 - j } else { j };
+                twin.ins(i, val(i));
+            }
+            root_key(&twin)
+        };
+        let key = |i: u32| i + 1 + if (mirror && i >= ir) || (!mirror && i > ir) { n2 + 2 } else { 0 };
+        for j in 0..n1 {
+            let i = if mirror { n1 - 1 - j } else { j };
+            let k = key(i);
+            t.ins(k, val(k));
+            model.insert(k, val(k));
+            if j % 8192 == 0 {
+                rt::hist_reset();
+                rt::hist_push(code(6, case_no, 1, 0, 0));
+            }
+        }
+        let r0 = root_key(&t);
+        if r0 != key(ir) {
+            return Err(("spine-setup".into(), format!("the root after the first fill holds key {r0}, the twin said rank {ir} (key {})", key(ir))));
+        }
+        for j in 0..n2 {
+            // r0 + 1 (r0 - 1) stays absent: a probe there runs down the whole spine without an exact hit
+            let k = if mirror { r0 - 1 - n2 + j } else { r0 + 1 + n2 - j };
+            t.ins(k, val(k));
+            model.insert(k, val(k));
+        }
+        let peak = model.len();
+        big_checkpoint(&t, &model, 8, peak, "after the two fills")?;
+        // gaps: a probe between two stored keys designates the smaller one, in both forms
+        for k in [r0 + 1, r0.saturating_sub(1), r0 + n2 + 2, r0.saturating_sub(n2 + 2), 0, u32::MAX] {
+            if let Some((pk, pv)) = model.range(..=k).next_back() {
+                let h = t.fil(k);
+                if h == i_tree::EMPTY_REF || t.at(h) != *pv || t.filby(k) != h {
+                    return Err(("handle".into(), format!("first_index_less({k}) = {h}, first_index_less_by = {}; the entry of key {pk} is the one to designate", t.filby(k))));
+                }
+            }
+        }
+        for round in 0..64 {
+            let rk = root_key(&t);
+            let h = t.fil(rk);
+            t.delh(h);
+            model.remove(&rk);
+            if round == 0 || round == 63 {
+                big_checkpoint(&t, &model, 8, peak, "after removing the root through its handle")?;
+            }
+        }
+        Ok(())
+    });
+    acc.transitions += (n1 + n2 + 64) as u64;
+    acc.evals += 3;
+    acc.nontrivial += 1;
+    acc.states.insert(fingerprint(format!("spine:{}:{n1}:{n2}:{mirror}", S::NAME).as_bytes()));
+    match r {
+        Ok(Ok(())) => {}
+        Ok(Err((tag, msg))) => acc.viol("history", &tag, msg, case.clone()),
+        Err(_) => acc.viol("history", "panic", format!("the subject panicked: {}", rt::last_panic()), case.clone()),
+    }
+    if acc.samples.is_empty() {
+        acc.samples.push(case);
+    }
+}
+
 fn sweep_bigtree(a: &Args) -> ! {
     let t0 = Instant::now();
     let prop = a.prop();
@@ -1337,6 +1449,28 @@ fn sweep_bigtree(a: &Args) -> ! {
                 }
             }
         }
+    }
+    if let Some(sp) = a.get("spine") {
+        // spine family: "n1:n2,n1:n2,..." each in both directions
+        let mut sc: Vec<(u32, u32, bool)> = vec![];
+        for part in sp.split(',') {
+            let (x, y) = part.split_once(':').unwrap();
+            for mirror in [false, true] {
+                sc.push((x.parse().unwrap(), y.parse().unwrap(), mirror));
+            }
+        }
+        let scs = &sc;
+        let acc = parallel(sc.len(), a.num("threads", 16) as usize, prop, sys, |i, acc| {
+            let (n1, n2, mirror) = scs[i];
+            if set {
+                big_spine_history::<i_tree::set::tree::SetTree<u32, u32>>(n1, n2, mirror, acc, i as u64);
+            } else {
+                big_spine_history::<i_tree::map::tree::MapTree<u32, u32>>(n1, n2, mirror, acc, i as u64);
+            }
+        });
+        let mut acc = acc;
+        acc.count("histories", sc.len() as u64);
+        finish(acc.report(t0, true, ""), a)
     }
     let cs = &cases;
     let acc = parallel(cases.len(), a.num("threads", 16) as usize, prop, sys, |i, acc| {
